@@ -532,8 +532,50 @@ FRESH_CALLS = {'deepcopy', 'clone', 'zeros', 'ones', 'array', 'empty', 'copy_tre
 
 
 class Ownership:
-    def __init__(self, root):
+    def __init__(self, root, samples=None):
         self.reg = Registry(root)
+        # run-time type probe: class name -> a live object of that class (built from a generated problem); used only
+        # to recognise `<receiver>.update(T)` as the refresh of a dassh Material (every property rebound from T)
+        self.samples = samples or {}
+        self.refresh_sites = []
+
+    def _is_material_refresh(self, cls, call):
+        """`recv.update(x)` with recv reached from self and, on the sample object of cls, a dassh Material (or a
+        container holding only Materials)"""
+        if call.func.attr != 'update' or len(call.args) != 1 or call.keywords:
+            return False
+        obj = self.samples.get(cls)
+        if obj is None:
+            return False
+
+        def ev(e):
+            if isinstance(e, ast.Name):
+                if e.id == 'self':
+                    return [obj]
+                raise KeyError(e.id)
+            if isinstance(e, ast.Attribute):
+                return [getattr(o, e.attr) for o in ev(e.value)]
+            if isinstance(e, ast.Subscript):
+                base = ev(e.value)
+                out = []
+                for b in base:
+                    if isinstance(e.slice, ast.Constant):
+                        out.append(b[e.slice.value])
+                    elif isinstance(b, dict):
+                        out.extend(b.values())
+                    else:
+                        out.extend(list(b))
+                return out
+            raise KeyError(type(e).__name__)
+        try:
+            vals = ev(call.func.value)
+        except Exception:
+            return False
+        ok = bool(vals) and all(any(k.__name__ == 'Material' and k.__module__.startswith('dassh')
+                                    for k in type(v).__mro__) for v in vals)
+        if ok:
+            self.refresh_sites.append(f'{cls}: {ast.unparse(call)[:60]}')
+        return ok
 
     def _mro(self, cls):
         out, todo = [], [cls]
@@ -564,6 +606,11 @@ class Ownership:
                     for tg in targets:
                         if isinstance(tg, ast.Attribute) and isinstance(tg.value, ast.Name) and tg.value.id == 'self':
                             attrs.setdefault(tg.attr, []).append((q, getattr(n, 'value', None)))
+                    # attributes only READ on self (assigned from outside the class, e.g. `rr.pin_model = PinModel(..)`
+                    # in a module-level factory) exist on the instances as well
+                    if isinstance(n, ast.Attribute) and isinstance(n.value, ast.Name) and n.value.id == 'self' \
+                            and isinstance(n.ctx, ast.Load) and not self.reg.method(c, n.attr):
+                        attrs.setdefault(n.attr, [])
                     # setattr(self, k, ...) with keys of a dict built in a module function
                     if isinstance(n, ast.Call) and isinstance(n.func, ast.Name) and n.func.id == 'setattr':
                         attrs.setdefault('<setattr>', []).append((q, None))
@@ -637,8 +684,29 @@ class Ownership:
                     if isinstance(sub, ast.Call) and isinstance(sub.func, ast.Name) and sub.func.id == 'setattr' \
                             and sub.args and isinstance(sub.args[0], ast.Name) and sub.args[0].id == var:
                         fresh |= set(names)
+        # attributes the CALLERS of clone() assign on the clone right away (`a = tmpl.clone(..); a.power = AssemblyPower(..)`)
+        fresh |= self.refreshed_by_callers(mname)
         uni = set(self.universe(cls)) - {'<setattr>'}
         return uni - fresh, fresh
+
+    def refreshed_by_callers(self, mname='clone'):
+        out = set()
+        for q, (mod, cls, node) in self.reg.funcs.items():
+            clones = set()
+            for n in ast.walk(node):
+                if isinstance(n, ast.Assign) and len(n.targets) == 1 and isinstance(n.targets[0], ast.Name) \
+                        and isinstance(n.value, ast.Call) and isinstance(n.value.func, ast.Attribute) \
+                        and n.value.func.attr == mname:
+                    clones.add(n.targets[0].id)
+            if not clones:
+                continue
+            for n in ast.walk(node):
+                if isinstance(n, ast.Assign):
+                    for tg in n.targets:
+                        if isinstance(tg, ast.Attribute) and isinstance(tg.value, ast.Name) and tg.value.id in clones \
+                                and self._is_fresh_value(n.value):
+                            out.add(tg.attr)
+        return out
 
     def _mutating_methods(self):
         """method names (any class) that assign attributes of their own object"""
@@ -659,6 +727,34 @@ class Ownership:
                     out.setdefault(node.name, set()).add(cls)
                 if isinstance(n, ast.Call) and isinstance(n.func, ast.Name) and n.func.id == 'setattr':
                     out.setdefault(node.name, set()).add(cls)
+                # mutator calls on something reached from self (self.x.append(..), self.d['k'].update(..))
+                if isinstance(n, ast.Call) and isinstance(n.func, ast.Attribute) and n.func.attr in MUTATORS:
+                    base = n.func.value
+                    depth = 0
+                    while isinstance(base, (ast.Attribute, ast.Subscript)):
+                        base = base.value
+                        depth += 1
+                    if isinstance(base, ast.Name) and base.id == 'self' and depth >= 1 \
+                            and not self._is_material_refresh(cls, n):
+                        out.setdefault(node.name, set()).add(cls)
+        # transitive: a method that calls self.m() with m mutating (same class) mutates its object too
+        calls = {}
+        for q, (mod, cls, node) in self.reg.funcs.items():
+            if cls is None:
+                continue
+            for n in ast.walk(node):
+                if isinstance(n, ast.Call) and isinstance(n.func, ast.Attribute) and isinstance(n.func.value, ast.Name) \
+                        and n.func.value.id == 'self':
+                    calls.setdefault((cls, node.name), set()).add(n.func.attr)
+        changed = True
+        while changed:
+            changed = False
+            for (cls, name), callees in calls.items():
+                if cls in out.get(name, ()):
+                    continue
+                if any(cls in out.get(c, ()) for c in callees):
+                    out.setdefault(name, set()).add(cls)
+                    changed = True
         return out
 
     def mutated_in_place(self, cls, entry_methods):
